@@ -143,3 +143,37 @@ Definition bcast2 {A B C} (f : A -> B -> C) (da : A) (db : B)
                                (nth (ravel pB (bidx pB idx)) ys db))
                    (seq 0 (size s)))
   end.
+
+(* ---- unravel inverts ravel; element-wise meaning of broadcasting ---------- *)
+Lemma unravel_ravel s idx : valid s idx -> unravel s (ravel s idx) = idx.
+Proof.
+  intros H. induction H as [|i n idx s Hi Hrest IH]; [reflexivity|].
+  cbn [ravel unravel].
+  pose proof (ravel_lt s idx Hrest) as Hlt.
+  assert (Hs : 0 < size s) by lia.
+  rewrite Nat.div_add_l by lia. rewrite (Nat.div_small (ravel s idx)) by assumption.
+  rewrite Nat.add_0_r, (Nat.mod_small i n) by assumption.
+  rewrite Nat.add_comm, Nat.mod_add by lia. rewrite Nat.mod_small by assumption.
+  rewrite IH. reflexivity.
+Qed.
+
+Lemma nth_map_seq {C} (h : nat -> C) n k d : k < n -> nth k (map h (seq 0 n)) d = h k.
+Proof.
+  intros Hk. rewrite nth_indep with (d' := h 0) by (rewrite map_length, seq_length; exact Hk).
+  rewrite map_nth, seq_nth by exact Hk. reflexivity.
+Qed.
+
+Lemma bcast2_spec {A B C} (f : A -> B -> C) da db dc sA sB xs ys s l :
+  bcast2 f da db sA sB xs ys = Some (s, l) ->
+  bshape sA sB = Some s /\ length l = size s /\
+  forall idx, valid s idx ->
+    nth (ravel s idx) l dc =
+    f (nth (ravel (pad_shape (length s) sA) (bidx (pad_shape (length s) sA) idx)) xs da)
+      (nth (ravel (pad_shape (length s) sB) (bidx (pad_shape (length s) sB) idx)) ys db).
+Proof.
+  unfold bcast2. destruct (bshape sA sB) as [s0|] eqn:E; [|discriminate].
+  intros H. injection H as <- <-. split; [reflexivity|]. split.
+  - rewrite map_length, seq_length. reflexivity.
+  - intros idx Hv. pose proof (ravel_lt s0 idx Hv) as Hlt.
+    rewrite nth_map_seq by exact Hlt. cbv zeta. rewrite unravel_ravel by exact Hv. reflexivity.
+Qed.
